@@ -59,30 +59,45 @@ class Check:
         """Run tasks; collect violations of self.prop (and hangs / crashes / panics when self.prop == C04)."""
         for t in tasks:
             t["props"] = props
-        rows = pool(tasks, f"{self.prop}_{name}", timeout_ms=timeout_ms, vh=vh)
-        flagged_sessions, sampled_sessions = [], []
-        for r in rows:
+        # (the result file can hold tens of gigabytes of recorded sessions at the thorough tier - outputs indented by 65 025
+        # columns per level: it is read row by row, and of the sessions only those that TLC can be given are kept)
+        weight = lambda s: sum(len(c.get("in", [])) + len(c.get("out", [])) for c in s["session"]["calls"])
+        rows = []
+        flagged_sessions, sampled_sessions, too_long = [], [], 0
+        for r in pool(tasks, f"{self.prop}_{name}", timeout_ms=timeout_ms, vh=vh, stream=True):
             t = r.get("t")
+            if t == "session":
+                w = weight(r)
+                if r.get("flagged"):
+                    if len(flagged_sessions) < 4 * confirm_cap or w <= 40000:
+                        flagged_sessions.append(r)
+                        if len(flagged_sessions) > 8 * confirm_cap:
+                            flagged_sessions = sorted(flagged_sessions, key=weight)[:4 * confirm_cap]
+                elif w > 40000:
+                    too_long += 1
+                elif len(sampled_sessions) < 20 * sample_cap:
+                    sampled_sessions.append(r)
+                continue
+            rows.append(r)
             if t == "done":
                 self.evaluations += r["evaluated"]
                 self.extra["formatter_calls"] = self.extra.get("formatter_calls", 0) + r.get("runs", 0)
                 self.nontrivial += r.get("nontrivial", {}).get(self.prop, 0)
                 self.extra["skipped_precondition"] = self.extra.get("skipped_precondition", 0) + r.get("skipped_precondition", 0)
+                too_long += r.get("sessions_too_long", 0)
             elif t == "viol":
                 if r["prop"] == self.prop:
                     self.add_violation(r)
                 elif r["prop"] == "C04" and self.prop != "C04":
                     self.extra["aborts_seen_(C04)"] = self.extra.get("aborts_seen_(C04)", 0) + 1
             elif t in ("hang", "crash"):
-                if t == "hang" and self.prop == "C04" and self._only_slow(r, tasks, props, vh):
+                if t == "hang" and self.prop == "C04" and self._only_slow(r, tasks, props, vh, timeout_ms):
                     self.extra["slow_cases_under_load"] = self.extra.get("slow_cases_under_load", 0) + 1
                     continue
                 if self.prop == "C04":
                     self.add_violation({"prop": "C04", "clause": t, "detail": f"{t} (no progress / process died)", "case": r.get("case") or {"label": str(r.get("index")), "suite": r.get("suite")}})
                 else:
                     self.extra[f"{t}s_seen_(C04)"] = self.extra.get(f"{t}s_seen_(C04)", 0) + 1
-            elif t == "session":
-                (flagged_sessions if r.get("flagged") else sampled_sessions).append(r)
             elif t == "tool_error":
                 self.tool_errors.append(r.get("detail", "pool error"))
         if len(self.samples) < 6:
@@ -93,31 +108,38 @@ class Check:
         # TLC re-decides flagged sessions (all up to a cap) and a sample of the others
         # (TLC's cost per session grows faster than linearly with the length of the texts: of the sessions nothing was
         # flagged in, only those of moderate size are sampled; flagged ones are all kept, the smallest first)
-        weight = lambda s: sum(len(c.get("in", [])) + len(c.get("out", [])) for c in s["session"]["calls"])
         mine = sorted(flagged_sessions, key=weight)
         random.Random(SEED).shuffle(sampled_sessions)
-        moderate = [s for s in sampled_sessions if weight(s) <= 40000]
-        self.extra["sessions_too_long_to_sample"] = self.extra.get("sessions_too_long_to_sample", 0) + len(sampled_sessions) - len(moderate)
-        chosen = mine[:confirm_cap] + (moderate or sorted(sampled_sessions, key=weight))[:sample_cap]
+        self.extra["sessions_too_long_to_sample"] = self.extra.get("sessions_too_long_to_sample", 0) + too_long
+        chosen = mine[:confirm_cap] + sampled_sessions[:sample_cap]
         if chosen:
             self.validate_sessions(chosen, name, props)
         return rows
 
-    def _only_slow(self, row, tasks, props, vh):
-        """A case that made no progress within the time limit is run again alone with a limit 60 times as long (a busy machine
-        slows everything down): only a case that still does not finish is a hang."""
+    def _only_slow(self, row, tasks, props, vh, timeout_ms=2000):
+        """A case that made no progress within the (wall-clock) time limit is run again alone, under the configuration it was
+        running with, and the PROCESSOR time of that run is measured: a busy machine stretches wall-clock time, not
+        processor time. Only a case whose processor time is within the original limit was merely slowed down by the load;
+        one that needs more, or does not finish within 120 s, is a hang."""
+        import resource
         case = row.get("case") or {}
         if not case.get("text"):
             return False
         t0 = next((t for t in tasks if t.get("id") == row.get("task")), None)
         tf = os.path.join(WORK, f"{self.prop}_recheck_{row.get('task')}_{row.get('index')}.ndjson")
         write_ndjson(tf, [{"text": case["text"], "wf": False, "label": case.get("label", "recheck")}])
-        task = {"suite": "texts", "params": {"path": tf}, "start": 0, "end": 1, "props": props, "cfgs": (t0 or {}).get("cfgs", "six")}
+        cfgs = [case["cfg"]] if isinstance(case.get("cfg"), dict) else (t0 or {}).get("cfgs", "six")
+        task = {"suite": "texts", "params": {"path": tf}, "start": 0, "end": 1, "props": props, "cfgs": cfgs}
+        before = resource.getrusage(resource.RUSAGE_CHILDREN)
         try:
             rows = pool([task], f"{self.prop}_recheck", procs=1, timeout_ms=120000, vh=vh)
         except Exception:
             return False
-        return not any(x.get("t") in ("hang", "crash") for x in rows) and any(x.get("t") == "done" for x in rows)
+        after = resource.getrusage(resource.RUSAGE_CHILDREN)
+        cpu = (after.ru_utime + after.ru_stime) - (before.ru_utime + before.ru_stime)
+        finished = not any(x.get("t") in ("hang", "crash") for x in rows) and any(x.get("t") == "done" for x in rows)
+        self.extra.setdefault("hang_rechecks", []).append({"label": case.get("label"), "cpu_s": round(cpu, 2), "limit_s": timeout_ms / 1000, "finished": finished})
+        return finished and cpu <= timeout_ms / 1000
 
     def validate_sessions(self, sessions, name, props):
         # the sessions are independent (each starts with a Reset event): they are cut into chunks of comparable size, each
@@ -217,7 +239,7 @@ class Check:
                 self.known_list.append(v)
             self.known_what[k["id"]] = k["what"]
         else:
-            if len(self.violations) < 200:
+            if len(self.violations) < 5000:
                 self.violations.append(v)
             self.extra["violations_total"] = self.extra.get("violations_total", 0) + 1
 
@@ -252,7 +274,7 @@ class Check:
         write_evidence(self.prop, self.tier, self.level, cov, wall, nviol, assumptions)
         for kid, n in self.known_hits.items():
             print(f"KNOWN-FINDING: property={self.prop} {kid}: {self.known_what.get(kid, '')} ({n} occurrence(s) in this run)")
-        # every violation (up to 200) for tooling; the first five as replay files
+        # every violation (up to 5000) for tooling; the first five as replay files
         with open(os.path.join(OUT, f"{self.prop}.violations.ndjson"), "w") as fh:
             for v in self.violations:
                 fh.write(json.dumps({k: v[k] for k in v if k != "session"}) + "\n")
